@@ -21,8 +21,11 @@ RULE = ('One case = a generated chart whose states and transitions carry 0-3 pre
         'condition occurrence with that occurrence returning False: execute_once must raise exactly Precondition/'
         'Postcondition/InvariantError carrying that state/transition object and that condition string, and the probe log '
         'must end at the failing occurrence.  Variants: a second live interpreter on the same Statechart one step behind, conditions '
-        'calling active()/sent(), a text-collision scenario (same source text as code and as condition).  Non-trivial = distinct '
-        '(chart, occurrence kind, position) injected.')
+        'calling active()/sent(), a text-collision scenario (same source text as code and as condition).  '
+        '1 case in 10 each: an environment scenario (the application owns a context object and changes it between calls, code-less states and '
+        'transitions, __old__ reached directly / through a generator expression / a lambda; every call evaluates the invariants of every '
+        'active state) and an empty-context scenario; what sent(name) answers at the end of a step is compared with the MacroStep.  '
+        'Non-trivial = distinct (chart, occurrence kind, position) injected.')
 ASSUMPTIONS = ['order between the invariant blocks of different active states is not fixed by the statement and is canonicalised',
                'conditions are side-effect free apart from the probe']
 KINDS = ['state.pre', 'state.post', 'state.inv', 'trans.pre', 'trans.inv_before', 'trans.post', 'trans.inv_after',
